@@ -10,9 +10,9 @@ import (
 	"bufio"
 	"bytes"
 	"encoding/json"
-	"io"
 	"flag"
 	"fmt"
+	"io"
 	"math/rand"
 	"os"
 	"runtime/debug"
@@ -63,8 +63,16 @@ type Ev struct {
 	Moves  *[]int    `json:"moves,omitempty"`
 	FenOut string    `json:"fenOut,omitempty"`
 	Best   string    `json:"best,omitempty"`
+	P1     *int      `json:"p1,omitempty"`
+	P2     *int      `json:"p2,omitempty"`
 	Msg    string    `json:"msg,omitempty"`
 	Engine *bool     `json:"engine,omitempty"`
+	// enum
+	X    int    `json:"x,omitempty"`
+	From int    `json:"from"`
+	Cnt  *[]int `json:"cnt,omitempty"`
+	Sum  *[]int `json:"sum,omitempty"`
+	St   *[]int `json:"st,omitempty"`
 }
 
 type rec struct {
@@ -837,6 +845,46 @@ func (r *rec) uciEvent(kind, fen string, ms []move.Move) {
 	}
 }
 
+// uciperft: the driver's perft command (divide output + total) on sampled positions, depths 1 and 2
+func (r *rec) uciperft(corpus []string) {
+	for !r.full() {
+		fen := r.source(corpus, false)
+		root, err := board.FromFEN(fen)
+		if err != nil || root.InvalidPieceCount() {
+			continue
+		}
+		r.perftEvent(fen)
+	}
+}
+
+func (r *rec) perftEvent(fen string) {
+	root, err := board.FromFEN(fen)
+	if err != nil {
+		panic(err)
+	}
+	rp := proj.Project(root)
+	// debug.Perft prints its per-move split straight to the process's stdout: keep that out of the way
+	saved := os.Stdout
+	if null, err := os.OpenFile(os.DevNull, os.O_WRONLY, 0); err == nil {
+		os.Stdout = null
+		defer func() { os.Stdout = saved; null.Close() }()
+	}
+	lines := runUCI("position fen "+fen+"\nperft 1\nperft 2\nquit\n", nil)
+	var totals []int
+	for i, l := range lines {
+		if strings.HasSuffix(l, " nps") && i+1 < len(lines) {
+			var v int
+			fmt.Sscanf(lines[i+1], "%d", &v)
+			totals = append(totals, v)
+		}
+	}
+	if len(totals) != 2 {
+		panic(fmt.Sprintf("perft output not understood: %q", lines))
+	}
+	r.t++
+	r.emit(&Ev{Ev: "uciPerft", Fen: fen, Root: &rp, P1: &totals[0], P2: &totals[1]})
+}
+
 func (r *rec) ucipos(corpus []string, plies int) {
 	for !r.full() {
 		fen, ms := r.game(corpus, plies, r.rng.Intn(3) == 0, false)
@@ -873,6 +921,8 @@ func (r *rec) reevent(path string) {
 	switch e.Ev {
 	case "uciPosition", "uciRep":
 		r.uciEvent(e.Ev, e.Fen, toMoves(e.Moves))
+	case "uciPerft":
+		r.perftEvent(e.Fen)
 	case "transp":
 		run := func(seq []move.Move) string {
 			b, _ := board.FromFEN(e.Fen)
@@ -889,6 +939,57 @@ func (r *rec) reevent(path string) {
 		rp := proj.Project(root)
 		r.t++
 		r.emit(&Ev{Ev: "transp", Fen: e.Fen, Root: &rp, Ma: e.Ma, Mb: e.Mb, Ha: run(toMoves(e.Ma)), Hb: run(toMoves(e.Mb))})
+	}
+}
+
+// enum: every placement of white king, black king and one piece x (code 1..5 white, 9..13 black), both sides
+// to move, by index; per index the engine's playable-move count, the sum of their encodings and its direct
+// checkmate (1) / stalemate (2) answer (0 otherwise). Indices that cannot be a position at all (coinciding
+// squares, a pawn on a back rank, adjacent kings) are reported as -1; validity proper is decided by the spec.
+func (r *rec) enum(x int, shard, nshards, every int) {
+	const chunk = 2048
+	r.max = 1 << 30
+	for from := 0; from < 2*64*64*64; from += chunk {
+		if (from/chunk)%nshards != shard || (from/chunk/nshards)%every != 0 {
+			continue
+		}
+		cnt, sum, st := make([]int, chunk), make([]int, chunk), make([]int, chunk)
+		for k := 0; k < chunk; k++ {
+			i := from + k
+			wk, bk, xs, stm := i%64, (i/64)%64, (i/4096)%64, i/262144
+			cnt[k], sum[k], st[k] = -1, -1, -1
+			if wk == bk || wk == xs || bk == xs || (x%8 == 1 && (xs/8 == 0 || xs/8 == 7)) {
+				continue
+			}
+			if d := wk%8 - bk%8; d >= -1 && d <= 1 {
+				if e := wk/8 - bk/8; e >= -1 && e <= 1 {
+					continue
+				}
+			}
+			bd := make([]int, 64)
+			bd[wk], bd[bk], bd[xs] = 6, 14, x
+			if gen.Attacked(bd, []int{wk, bk}[1-stm], stm) {
+				continue // side not to move in check: not a position
+			}
+			b, err := board.FromFEN(gen.FEN(bd, stm, 0, -1, 0, 1))
+			if err != nil {
+				panic(err)
+			}
+			lm := proj.Playable(b, r.ms)
+			cnt[k], sum[k], st[k] = len(lm), 0, 0
+			for _, m := range lm {
+				sum[k] += int(m)
+			}
+			if b.InCheck(b.STM) {
+				if b.IsCheckmate() {
+					st[k] = 1
+				}
+			} else if b.IsStalemate() {
+				st[k] = 2
+			}
+		}
+		r.t++
+		r.emit(&Ev{Ev: "enum", X: x, From: from, Cnt: &cnt, Sum: &sum, St: &st})
 	}
 }
 
@@ -944,6 +1045,10 @@ func main() {
 	corpusPath := flag.String("corpus", "", "corpus file (FEN per line)")
 	rawEp := flag.Bool("rawep", false, "keep en-passant targets that are not capturable in generated roots")
 	in := flag.String("in", "", "script file for -mode script")
+	enumX := flag.Int("x", 5, "enum: the third piece (1..5 white, 9..13 black)")
+	shardF := flag.Int("shard", 0, "enum: shard")
+	nshardsF := flag.Int("nshards", 1, "enum: shards")
+	everyF := flag.Int("every", 1, "enum: take every n-th chunk of this shard")
 	out := flag.String("out", "", "output file (default stdout)")
 	flag.Parse()
 
@@ -997,10 +1102,14 @@ func main() {
 		r.ucipos(corpus, *plies)
 	case "ucirep":
 		r.ucirep(corpus, *plies)
+	case "uciperft":
+		r.uciperft(corpus)
 	case "reevent":
 		r.reevent(*in)
 	case "list":
 		r.list(corpus)
+	case "enum":
+		r.enum(*enumX, *shardF, *nshardsF, *everyF)
 	case "fens":
 		// plain FEN lines (one per line) of generated valid positions and of positions along random games
 		w.Flush()
